@@ -13,6 +13,7 @@ def CValid (ie : IEnv) : Constraint → Prop
   | .pkh hh pk sg => ie.verifySig pk sg = true ∧ ie.hash160 pk = hh ∧ ie.keyParse pk = true
   | .hashLock k hh pre => ie.hash k pre = hh ∧ pre.length = 32
   | .after n =>
+    ie.sequence ≠ Interp.SEQ_FINAL ∧
     ((n < Interp.LOCKTIME_THRESHOLD ∧ ie.lockTime < Interp.LOCKTIME_THRESHOLD)
       ∨ (n ≥ Interp.LOCKTIME_THRESHOLD ∧ ie.lockTime ≥ Interp.LOCKTIME_THRESHOLD)) ∧ n ≤ ie.lockTime
   | .older n =>
@@ -75,14 +76,17 @@ theorem evaluateAfter_valid {n : Nat} {st a' : AStack} {cs : List Constraint}
     (h : evaluateAfter ie n st = .ok (a', cs)) : AllValid ie cs := by
   unfold evaluateAfter at h
   split at h
-  · rename_i h1
-    split at h
-    · rename_i h2
-      simp at h; obtain ⟨_, h2⟩ := h; subst h2
-      refine AllValid.cons ⟨?_, h2⟩ AllValid.nil
-      simpa only [Bool.and_eq_true, Bool.or_eq_true, decide_eq_true_eq] using h1
-    · simp at h
   · simp at h
+  · rename_i h0
+    split at h
+    · rename_i h1
+      split at h
+      · rename_i h2
+        simp at h; obtain ⟨_, h2'⟩ := h; subst h2'
+        refine AllValid.cons ⟨by simpa using h0, ?_, h2⟩ AllValid.nil
+        simpa only [Bool.and_eq_true, Bool.or_eq_true, decide_eq_true_eq] using h1
+      · simp at h
+    · simp at h
 
 theorem evaluateOlder_valid {n : Nat} {st a' : AStack} {cs : List Constraint}
     (h : evaluateOlder ie n st = .ok (a', cs)) : AllValid ie cs := by
